@@ -118,6 +118,19 @@ fn games() -> Vec<(&'static str, S)> {
             (l("z"), S::T(-3.0 * sg)),
         ])
     };
+    // G8 / G9: a single-action node of the mover between two of its decisions, and a sibling decision
+    // that is linked normally (the order in which infosets are resolved depends on the recorded parents)
+    let forced = |one: bool| -> S {
+        let sg = if one { 1.0 } else { -1.0 };
+        let left = S::P(one, l("left"), vec![
+            (l("x"), S::P(!one, l("resp"), vec![(l("u"), S::T(1.0 * sg)), (l("v"), S::T(4.0 * sg))])),
+            (l("y"), S::T(3.0 * sg)),
+        ]);
+        S::P(one, l("root"), vec![
+            (l("a"), S::P(one, l("forced"), vec![(l("go"), left)])),
+            (l("b"), S::P(one, l("right"), vec![(l("x"), S::T(2.0 * sg)), (l("y"), S::T(0.0))])),
+        ])
+    };
     // G6 / G7: the best response runs through an opponent node one of whose actions may have probability
     // exactly 0 and leads to an otherwise unreachable infoset of the deviating player
     let hidden = |one: bool| -> S {
@@ -129,7 +142,8 @@ fn games() -> Vec<(&'static str, S)> {
         ])
     };
     vec![("chance-then-hidden-moves", g1), ("sequential-with-chance", g2), ("degenerate-nodes", g3), ("uneven-action-counts-one", uneven(true)), ("uneven-action-counts-two", uneven(false)),
-         ("unreachable-infoset-one", hidden(true)), ("unreachable-infoset-two", hidden(false))]
+         ("unreachable-infoset-one", hidden(true)), ("unreachable-infoset-two", hidden(false)),
+         ("forced-move-between-own-decisions-one", forced(true)), ("forced-move-between-own-decisions-two", forced(false))]
 }
 
 fn profile(s: &S, one: bool, k: u64) -> Strat {
